@@ -237,7 +237,7 @@ class C13(fw.Property):
     coq_props = "Props/C13.v"
     gen_jobs = ["oscore_replay", "oscore_seqno", "oscore_rwchanged"]
     model_imports = ["Verif.Gen.oscore_replay", "Verif.Model.C12", "Verif.Model.C13", "Verif.Model.C13Kernel"]
-    quick_budget = 230
+    quick_budget = 150
     thorough_budget = 3000
     design_ref = "DESIGN.md section 18"
     technique = ("Coq invariant proofs over an executable model of process state + disk state (every event list, every crash point); "
@@ -282,11 +282,11 @@ class C13(fw.Property):
         # the translated kernels (Gen/oscore_seqno.v) against the real methods, _store replaced by a recording callback
         for flag in (True, False):
             for fail in (False, True): yield "kernels", {"rw": flag, "fail": fail}
-        for k in range(56 if tier == "quick" else 1500): yield "kernels", self.gen_kernels(rng)
+        for k in range(36 if tier == "quick" else 1500): yield "kernels", self.gen_kernels(rng)
         # every load draws a fresh unpredictable Echo value (real secrets module, oracle only)
         for ends in (["stop", "kill", "stop"], ["kill", "kill"], ["protect+kill", "stop", "protect+kill"]): yield "echo_fresh", {"ends": ends}
         # _store raising OSError instead of dying: the callers roll back (fixed in /repo 304561f); what the code does afterwards, against the model
-        for k in range(14 if tier == "quick" else 200): yield "store_error", self.gen_store_error(rng)
+        for k in range(10 if tier == "quick" else 200): yield "store_error", self.gen_store_error(rng)
         quota = {"crash_sweep": 0.30, "history": 0.36, "replay": 0.22, "exhaustion": 0.12}
         sweep = None
         for k in range(n):
